@@ -329,6 +329,15 @@ def scaling_input(kind: str, k: int) -> bytes:
         rows = [orow, jwire.mkrow("triple", {"s": ("bnode", "a"), "p": ("bnode", "b"),
                                              "o": ("literal", "a" + "\u0301\u0323" * k, None, None)})]
         return jwire.write_delimited([jwire.enc_frame(rows)])
+    if kind == "many-namespaces":
+        # k namespace declarations with distinct labels in one frame, then one statement
+        o = jwire.mkrow("options", {**opts, "version": 2, "max_prefix_table_size": 8})
+        rows = [o, jwire.mkrow("prefix", {"id": 1, "value": "http://n/"})]
+        for i in range(k):
+            rows.append(jwire.mkrow("name", {"id": (i % 8) + 1, "value": f"ns{i}#"}))
+            rows.append(jwire.mkrow("namespace", {"name": f"p{i}", "iri": ("iri", 1, (i % 8) + 1)}))
+        rows.append(full)
+        return jwire.write_delimited([jwire.enc_frame(rows)])
     if kind == "ns-then-frames":
         # k namespace declarations in the first frame, then k tiny frames
         o = jwire.mkrow("options", {**opts, "version": 2, "max_prefix_table_size": 8})
@@ -371,9 +380,12 @@ def scaling_input(kind: str, k: int) -> bytes:
 
 SCALING = (("rows-per-frame", 50_000), ("frames", 20_000), ("entries", 50_000),
            ("distinct-statements", 20_000), ("integer-digits", 200_000), ("decimal-digits", 200_000),
-           ("repeated-quoted", 2_000), ("combining-marks", 8_000), ("ns-then-frames", 150))
+           ("repeated-quoted", 2_000), ("combining-marks", 8_000), ("ns-then-frames", 150),
+           ("many-namespaces", 8_000))
 # (size multiplier, ratio above which growth counts as super-linear, items expected per unit)
 SCALING_STEP = {"integer-digits": (16, 24.0), "decimal-digits": (16, 24.0)}
+# (sizes at which a quadratic term becomes visible differ a lot between the integrations)
+SCALING_K = {("rdflib", "many-namespaces"): 2_000}
 
 
 def count_items(api: str, reader: str, data: bytes):
@@ -410,13 +422,15 @@ def scaling_shard(job) -> dict:
     acc = pool.Acc()
     for api, reader in (("generic", "flat"), ("rdflib", "flat"), ("generic", "to_graph"),
                         ("rdflib", "to_graph"), ("generic", "grouped"), ("rdflib", "grouped")):
-        if reader == "grouped" and kind not in ("ns-then-frames", "frames"):
+        if reader == "grouped" and kind not in ("ns-then-frames", "frames", "many-namespaces"):
             continue
         if kind == "repeated-quoted" and api == "rdflib":
             continue  # (quoted triples are not RDF 1.1)
         times = []
         step, limit = SCALING_STEP.get(kind, (4, 9.0))
-        single = kind in SCALING_STEP or kind in ("entries", "combining-marks")  # (one statement)
+        single = kind in SCALING_STEP or kind in ("entries", "combining-marks",
+                                                  "many-namespaces")  # (one statement)
+        k = SCALING_K.get((api, kind), job[1])
         for mult in (1, step):
             data = scaling_input(kind, k * mult)
             t0 = time.process_time()
@@ -428,7 +442,8 @@ def scaling_shard(job) -> dict:
         acc.nontrivial += 1
         t1, t4 = times
         if t4 > 2.0 and t4 > limit * max(t1, 0.02):
-            acc.violation({"fail": "super-linear", "family": "e4:" + kind},
+            acc.violation({"fail": "super-linear", "family": "e4:" + kind, "api": api,
+                           "label": kind},
                           f"{api} {reader} parser: {kind} of size {k} takes {t1:.2f}s CPU, size "
                           f"{step * k} takes {t4:.2f}s (x{t4 / max(t1, 1e-9):.1f}; linear would be "
                           f"x{step})",
